@@ -57,6 +57,41 @@ def main():
             for u in re.finditer(r"\bself\s*\.\s*(source_file|errors)\b(\s*\.\s*(\w+))?", body):
                 uses.add((rel, u.group(1), u.group(3) or "<whole>"))
     uses = sorted(uses)
+    # the loop of bin/main.rs `format` over the paths of the command line: every binding that is alive across
+    # iterations (bound in the function body before / outside the `for file in files` loop)
+    mainrs = strip_rust_comments(read(a.repo, "src/bin/main.rs", NAME))
+    m = re.search(r"\bfn\s+format\s*\(", mainrs)
+    if not m:
+        refuse(NAME, "src/bin/main.rs: fn format not found")
+    brace = mainrs.find("{", mainrs.find(")", m.end()))
+    # skip the return type: the body is the first `{` after `-> Result<i32>`
+    arrow = mainrs.find("->", m.end())
+    if arrow != -1 and arrow < brace:
+        brace = mainrs.find("{", arrow)
+    fbody, _ = block_after(mainrs, brace)
+    lm = re.search(r"\bfor\s+(\w+)\s+in\s+files\b[^{]*\{", fbody)
+    if not lm:
+        refuse(NAME, "src/bin/main.rs: `for <x> in files` loop of fn format not found")
+    loop_body, loop_end = block_after(fbody, lm.end() - 1)
+    outside = fbody[:lm.start()] + fbody[loop_end:]
+    # bindings at the function's own nesting depth outside the loop
+    cli_bindings = []
+    depth = 0
+    i = 0
+    pre = fbody[:lm.start()]
+    for mm in re.finditer(r"[{}]|\blet\s+(mut\s+)?(\(([^)]*)\)|\w+)", pre):
+        t = mm.group(0)
+        if t == "{":
+            depth += 1
+        elif t == "}":
+            depth -= 1
+        elif depth == 0:
+            names = re.findall(r"\w+", mm.group(3)) if mm.group(3) is not None else [mm.group(2)]
+            for nme in names:
+                if nme != "mut":
+                    cli_bindings.append((nme, bool(mm.group(1)) or ("mut " + nme) in (mm.group(3) or "")))
+    # calls made in the loop body that take no per-file argument are suspicious too; what is pinned is the callee list
+    loop_calls = sorted(set(re.findall(r"\b([a-z_][\w:]*)\s*\(", loop_body)) - {"if", "let", "match", "while", "for", "return", "Some", "Ok", "Err", "println", "eprintln"})
     def lst(xs):
         return "[" + ", ".join(xs) + "]"
     q = lambda s: '"' + s.replace("\\", "\\\\").replace('"', '\\"') + '"'
@@ -70,6 +105,10 @@ def main():
          "def statics : List (String × String × String) := " + lst(f"({q(f)}, {q(n)}, {q(t)})" for f, n, t in statics) + "\n",
          "/-- how the two accumulating `Session` fields are touched inside `impl Session`: (file, field, method or sub-field) -/",
          "def sessionUses : List (String × String × String) := " + lst(f"({q(f)}, {q(n)}, {q(t)})" for f, n, t in uses) + "\n",
+         "/-- bin/main.rs `format`: the bindings alive across the iterations of the loop over the command line: (name, mutable) -/",
+         "def cliLoopBindings : List (String × Bool) := " + lst(f"({q(n)}, {'true' if mu else 'false'})" for n, mu in cli_bindings) + "\n",
+         "/-- bin/main.rs `format`: the functions and methods called inside the loop body -/",
+         "def cliLoopCalls : List String := " + lst(q(c) for c in loop_calls) + "\n",
          "end RF.Gen.State\n"]
     changed = write_if_changed(os.path.join(a.out, "State.lean"), "\n".join(L))
     print(f"c15_state: ok ({'rewritten' if changed else 'unchanged'}); session fields {[n for n, _ in sess]}; {len(statics)} static sites")
